@@ -25,10 +25,11 @@ unsigned vp_wf;            /* field identifier argument */
 unsigned vp_wx;            /* extra scalar (lengths, slack) */
 
 /* Field identifiers of enum type that take part in a comparison INSIDE the code under
- * verification are restricted to [0, 2^31): CBMC's C front end promotes an enum operand
- * to signed int, GCC (enum without negative enumerators) to unsigned int, so the two
- * disagree on `field >= MAX` for identifiers >= 2^31.  Listed as an assumption. */
-#define VP_ENUM_ID_OK(field) ((unsigned)(field) <= 0x7fffffffu)
+ * verification (the five legacy wrapper pairs): CBMC's C front end promotes an enum operand
+ * to signed int, GCC (enum without negative enumerators) to unsigned int.  The guarded hook
+ * in the five headers (COVESA_OPEN1722_VERIF) makes the identifier type the unsigned int GCC
+ * uses, so ALL 2^32 identifiers are covered; no restriction is left. */
+#define VP_ENUM_ID_OK(field) 1
 
 /* Witness bindings in hand-written contracts are active only when the contract is the
  * one being enforced (-DVP_BINDINGS); in replace mode a requires clause is an assertion. */
